@@ -187,12 +187,22 @@ func oracleMessage(c *Ctx, spc *MsgSpec, out []byte, checkC01, checkC02 bool) {
 				c.Violate("c02-duplicate-field", fmt.Sprintf("field %s occurs %d times", n, k), spc)
 			}
 		}
+		// User-Agent / X-Mailer: the default pair is added only when the caller set neither of the two
+		if allowed["user-agent"] != allowed["x-mailer"] {
+			other := "x-mailer"
+			if allowed["x-mailer"] {
+				other = "user-agent"
+			}
+			if seen[other] > 0 {
+				c.Violate("c02-extra-field", "the caller set only one of User-Agent / X-Mailer, the other one ("+other+") was added", spc)
+			}
+		}
 		for key, vals := range lastGen {
 			if len(vals) == 0 || preformatted[strings.ToLower(key)] || !msgCharsetUTF8 {
 				continue
 			}
-			if lk := strings.ToLower(key); topDefaults[lk] {
-				continue // the caller overwrote a default field the writer may overwrite again (e.g. MIME-Version)
+			if lk := strings.ToLower(key); topDefaults[lk] && lk != "date" && lk != "message-id" && lk != "user-agent" && lk != "x-mailer" {
+				continue // a field the writer sets itself whatever the caller put there (MIME-Version, Content-*, addresses)
 			}
 			got, n := ent.Get(key)
 			want := strings.Join(vals, ", ")
